@@ -102,7 +102,7 @@ type MemberRes struct {
 func Ask(m *Sch, x any) MemberRes {
 	var res MemberRes
 	res.Panic = hx.Safely(func() {
-		out, err := m.Z.ParseAny(x)
+		out, err := m.Z.ParseAny(Clone(x))
 		if err == nil {
 			res.OK, res.Result = true, out
 			return
@@ -173,7 +173,7 @@ type Obs struct {
 func Observe(s *Sch, in any) Obs {
 	var o Obs
 	o.Panic = hx.Safely(func() {
-		_, err := s.Z.ParseAny(in)
+		_, err := s.Z.ParseAny(Clone(in))
 		if err == nil {
 			o.OK = true
 			return
@@ -211,5 +211,5 @@ func PanicClass(msg string) string {
 
 // Repro is the human-readable part of an op line.
 func Repro(s *Sch, in any) string {
-	return fmt.Sprintf("%s.ParseAny(%#v)", s.Name, in)
+	return strings.ReplaceAll(fmt.Sprintf("%s.ParseAny(%#v)", s.Name, in), "\n", " ")
 }
